@@ -20,7 +20,7 @@ def temps_in(toks):
     return out
 
 
-def build(shape, w, rng, variant, bigimm):
+def build(shape, w, rng, variant, bigimm, want_instr=False):
     M = 1 << w
     toks = shape.split()
     if bigimm and "#" in toks:
@@ -46,6 +46,8 @@ def build(shape, w, rng, variant, bigimm):
         live = 65535
     post = ["65535 c m %d t %d" % (CELL_OF[t], t) for t in observed]
     insts = pre + ["%d %s" % (live, " ".join(toks))] + post
+    if want_instr:
+        return "14 -2 12 %d %s" % (len(insts), " ".join(insts)), "%d %s" % (live, " ".join(toks)), len(pre)
     return "14 -2 12 %d %s" % (len(insts), " ".join(insts))
 
 
@@ -85,4 +87,74 @@ def run_forms(res, backends, widths=(8, 16, 32, 64), sample=None, max_report=4):
                             res.violation("instruction form `%s` (width %d, %s liveness) executed by the %s (%s build) gives cells %s, the bytecode semantics BC.v gives %s"
                                           % (tests[i][2], w, tests[i][3], "baseline JIT" if backend == "jit" else "bytecode interpreter", prof, o[:120], model[i][:120]),
                                           {"form_case": "runbcmem|%s|%d|0|10|%s" % (backend, w, tests[i][0]), "implementation": o, "model": model[i], "profile": prof})
+    return stats
+
+
+def run_x86_forms(res, widths=(8, 16, 32, 64), sample=None, max_report=4):
+    """Certified per-form validation of the JIT's arithmetic instruction selection: the machine
+    code emitted for every normalised Copy/Add/Sub/Mul shape x liveness variant (x an immediate
+    beyond 32 bits) is disassembled, translated to X86.v syntax and checked by the extracted
+    [X86.form_ok] (sound for all operand values by theorem C03_form_sound).  A rejected form is
+    re-run on the CPU with fresh random contents to look for a concrete failing input."""
+    from . import x86tr
+    rng = C.Rng(res.seed * 15485863 + 11)
+    driver = C.build_driver()
+    hv = C.build_harness("debug")
+    stats = {"forms_checked": 0, "accepted": 0, "rejected": 0, "unsupported": 0, "instructions": 0}
+    rep = 0
+    for w in widths:
+        shapes = [s for s in C.run_lines(driver, ["shapes|%d" % w], shards=1)[0].split(";") if not s.endswith(" F")]
+        if sample:
+            shapes = [s for i, s in enumerate(shapes) if (i * 7919 + res.seed) % sample == 0]
+        tests = []
+        for sh in shapes:
+            for variant in ("exact", "alllive", "deadsrc"):
+                for big in ((False, True) if "#" in sh and w >= 32 else (False,)):
+                    prog, instr, idx = build(sh, w, rng, variant, big, want_instr=True)
+                    tests.append((sh, variant, big, prog, instr, idx))
+        outs = C.run_lines(hv, ["mcinstr|%d|%d|%s" % (w, t[5], t[3]) for t in tests])
+        for t, o in zip(tests, outs):
+            if not o.startswith("ok "):
+                raise C.CheckFailure("mcinstr failed for form %s: %s" % (t[0], o[:200]))
+        dis = x86tr.disasm_many([o[3:] for o in outs])
+        lines, meta = [], []
+        for t, ins in zip(tests, dis):
+            stats["forms_checked"] += 1
+            stats["instructions"] += len(ins)
+            try:
+                code = ";".join(x86tr.translate(i, w) for i in ins)
+            except x86tr.Unsupported as e:
+                stats["unsupported"] += 1
+                if rep < max_report:
+                    rep += 1
+                    res.violation("the JIT emits code outside the modelled x86 subset for instruction form `%s` (width %d, %s): %s; code: %s"
+                                  % (t[0], w, t[1], e, " ; ".join(ins)[:300]),
+                                  {"form_case": "mcinstr|%d|%d|%s" % (w, t[5], t[3]), "disassembly": ins, "theorem": "C03_form_sound"}, no_failing_input=True)
+                continue
+            lines.append("x86form|%d|14 -2 12 1 %s|%s" % (w, t[4], code))
+            meta.append((t, ins))
+        verdicts = C.run_lines(driver, lines)
+        for (t, ins), v, line in zip(meta, verdicts, lines):
+            if v == "ok":
+                stats["accepted"] += 1
+                continue
+            stats["rejected"] += 1
+            if rep >= max_report:
+                continue
+            rep += 1
+            # look for a concrete operand assignment on which the machine code misbehaves
+            found = None
+            for attempt in range(40):
+                prog = build(t[0], w, rng, t[1], t[2])
+                m = C.run_lines(driver, ["bcmem|%d|0|10|%s" % (w, prog)], shards=1)[0]
+                a = C.run_lines(hv, ["runbcmem|jit|%d|0|10|%s" % (w, prog)], shards=1)[0]
+                if a != m:
+                    found = (prog, a, m)
+                    break
+            what = "the machine code the JIT emits for instruction form `%s` (width %d, %s liveness) is rejected by the certified checker X86.form_ok (%s): %s" % (t[0], w, t[1], v, " ; ".join(ins)[:300])
+            if found:
+                res.violation(what + "; on the CPU it gives cells %s where the bytecode semantics gives %s" % (found[1][:100], found[2][:100]),
+                              {"form_case": "runbcmem|jit|%d|0|10|%s" % (w, found[0]), "implementation": found[1], "model": found[2], "x86form": line, "disassembly": ins})
+            else:
+                res.violation(what, {"x86form": line, "disassembly": ins, "theorem": "C03_form_sound"}, no_failing_input=True)
     return stats
